@@ -141,7 +141,8 @@ fn build_system(node: roxmltree::Node) -> VypSystem {
             multiplier,
             // ignoramos este dato ya que es redundante con el de la demanda
             // dhw_supply_temp: get_tag_as_f32(&node, "tImpulsion").unwrap(),
-            dhw_demand: dhw_demand.unwrap(),
+            // Un sistema de ACS sin bloque de demandas se queda sin demandas asociadas
+            dhw_demand: dhw_demand.unwrap_or_default(),
             equipment,
         },
         "SIS_Mixto" | "SIS_CalefaccionPorAgua" => {
